@@ -49,7 +49,7 @@ def emit(rng, keyhex, kc, msg, mc, chunking=None):
         steps, a = [], 0
         for c in parts:
             steps.append('i.0.%s' % (msg[a:a + c].hex() or '-')); a += c
-        fin = 'r.0' if rng.below(3) else 'rr.0.16'
+        fin = 'r.0' if rng.below(3) else 'rr.0.%d' % rng.choice([16, 16, 16, 17, 24, 32, 64])      # raw_result documents "at least 16 bytes"
         yield 'mac poly1305 %s %s %s #%s/%s/%s' % (keyhex, ' '.join(steps), fin, kc, mc, cname)
 
 
